@@ -108,13 +108,27 @@ def updateParam (h : KernelFileHeader) (key value : List Char) : Except Fault Ke
   else if key = "enable lineinfo".toList then .ok { h with enableLineinfo := decide (value = ['1']) }
   else .error .panic -- "Unknown key"
 
-/-- one line that starts with `-`: `elems := strings.Split(text, "=")`,
+/-- one line that starts with `-`, BEFORE the repair: `elems := strings.Split(text, "=")`,
     `key := strings.TrimSpace(elems[0])[1:]`, `value := strings.TrimSpace(elems[1])` (index panic when
-    there is no `=`; what follows a second `=` is dropped) -/
-def headerLine (h : KernelFileHeader) (text : List Char) : Except Fault KernelFileHeader :=
+    there is no `=`; what follows a second `=` was dropped) -/
+def headerLineOld (h : KernelFileHeader) (text : List Char) : Except Fault KernelFileHeader :=
   let elems := splitOnC '=' text
   let key := (trimSp (elems.headD [])).drop 1
   match elems[1]? with
+  | none => .error .bounds
+  | some v => updateParam h key (trimSp v)
+
+/-- the text behind the first `d` (`none`: no `d`) — `strings.SplitN(text, d, 2)[1]` -/
+def afterFirst (d : Char) : List Char → Option (List Char)
+  | [] => none
+  | c :: r => if c = d then some r else afterFirst d r
+
+/-- one line that starts with `-` (repaired): `elems := strings.SplitN(text, "=", 2)` — the text before the first `=`
+    and everything behind it —, `key := strings.TrimSpace(elems[0])[1:]`, `value := strings.TrimSpace(elems[1])`
+    (index panic when there is no `=`) -/
+def headerLine (h : KernelFileHeader) (text : List Char) : Except Fault KernelFileHeader :=
+  let key := (trimSp (text.takeWhile (fun c => c != '='))).drop 1
+  match afterFirst '=' text with
   | none => .error .bounds
   | some v => updateParam h key (trimSp v)
 
@@ -142,14 +156,15 @@ def parseFile (lines : List (List Char)) : Except Fault (KernelFileHeader × Lis
 /-! ## `kernelslist.g` -/
 inductive Exec
   | kernel (file : List Char)
-  | memcpy (dir : List Char) (addr len : Nat)   -- `Direction` is "" unless the text says HtoD / DtoH
+  | memcpy (dir : List Char) (addr len : Nat)   -- `Direction`: the text in front of the first comma
 deriving DecidableEq, Repr
 
 def h2d : List Char := "MemcpyHtoD".toList
 def d2h : List Char := "MemcpyDtoH".toList
 
-/-- `TraceReader.BuildExecFromText` -/
-def buildExec (text : List Char) : Except Fault Exec :=
+/-- `TraceReader.BuildExecFromText` (repaired: the direction is kept whatever it is; `dirSel` = what becomes of the
+    direction text, the identity) -/
+def buildExecWith (dirSel : List Char → List Char) (text : List Char) : Except Fault Exec :=
   if hasPrefix "Memcpy" text then
     let d := text.takeWhile (fun c => c != ',')
     match text.dropWhile (fun c => c != ',') with
@@ -158,11 +173,17 @@ def buildExec (text : List Char) : Except Fault Exec :=
       match scanVU rest with                     -- Sscanf(rest, "%v,%v", &Address, &Length)
       | some (a, ',' :: r1) =>
         match scanVU r1 with
-        | some (n, _) => .ok (.memcpy (if d = h2d ∨ d = d2h then d else []) a n)
+        | some (n, _) => .ok (.memcpy (dirSel d) a n)
         | none => .error .panic
       | _ => .error .panic
   else if hasPrefix "kernel" text then .ok (.kernel text)
   else .error .panic                             -- "Unknown execution type"
+
+def buildExec (text : List Char) : Except Fault Exec := buildExecWith id text
+
+/-- before the repair: `switch directionStr { case H2D: …; case D2H: … }` — any other direction became "" -/
+def buildExecOld (text : List Char) : Except Fault Exec :=
+  buildExecWith (fun d => if d = h2d ∨ d = d2h then d else []) text
 
 /-- `generateExcutions` over the lines of `kernelslist.g` -/
 def readKernelsList : List (List Char) → Except Fault (List Exec)
@@ -258,7 +279,10 @@ def isInstLine (l : List Char) : Bool :=
   | c :: _ => isDigit 16 c
   | [] => false
 
-/-- the `Direction` that survives `BuildExecFromText` -/
-def keptDir (d : List Char) : List Char := if d = h2d ∨ d = d2h then d else []
+/-- the `Direction` that survives `BuildExecFromText`: all of it (repaired) -/
+def keptDir (d : List Char) : List Char := d
+
+/-- … before the repair -/
+def keptDirOld (d : List Char) : List Char := if d = h2d ∨ d = d2h then d else []
 
 end C20
